@@ -62,4 +62,5 @@ let silence _inp impl = ("ok", if impl = "ok" then "1" else "0")
 let () =
   Registry.register "timing" timing;
   Registry.register "timingrange" timingrange;
-  Registry.register "silence" silence
+  Registry.register "silence" silence;
+  Registry.register "silencegarble" silence
